@@ -87,6 +87,8 @@ func oracleFor(op *Sexp, res string) []string {
 		return oracleDesc(op, res)
 	case "sched":
 		return oracleSched(op, res)
+	case "desccalls":
+		return oracleDescJSON(op, lastDescJSON)
 	case "descjson":
 		return oracleDescJSON(op, res)
 	case "jsonout":
